@@ -1,4 +1,6 @@
 import OW.Proofs.WrapperNdRun
+import OW.Kernels.Muskingum
+import OW.Kernels.Coeff
 /-!
 C04 (n-d level) — the view algebra of the wrapper template yields the cell views the list-level semantics assumes.
 
@@ -376,8 +378,12 @@ variable {α : Type} [Num α]
 /-- **wrapperNd_refines** (specs with scalar parameters only). Root arrays `parameters [rows, nSets]`,
 `inputs [nIn, nI, T]`, `states [N, nS]`, `outputs [M, nO, T']` (`T ≤ T'`, oversized allowed) on storages `pst, ist, sst,
 ost`, states and outputs in different storages; a cell `i < N`, `i < M`; a model with `nP ≤ rows` scalar parameters
-(rows `0 … nP-1`) and ANY kernel function `km.run` on lists whose results fit the arrays (at most `nO` series of at most
-`T` values, at most `nS` states — otherwise the Go code panics where the list-level `overwrite` truncates).
+(rows `0 … nP-1`) and ANY kernel function `km.run` on lists whose results fit the arrays WHEN IT IS CALLED ON ARGUMENTS OF
+THE SHAPE THE WRAPPER PASSES (`hK`: on `nI` input series of exactly `T` values and a state row of exactly `nS` values it
+returns at most `nO` series of at most `T` values and at most `nS` states — otherwise the Go code panics where the
+list-level `overwrite` truncates). The hypothesis is met by the registry kernels (`ExRefine.muskingum_fits`,
+`ExRefine.coeff_fits`); quantified over ALL inputs it would be met by no real kernel (`ExRefine.unrestricted_fit_is_unsatisfiable`:
+a kernel returns series as long as its inputs).
 Let `paramsL`, `inputsL`, `st`, `orow` be the row-major list denotations of the storages (`mat`/`cube`/`rowAt` =
 `chunks`, `mat_eq_chunks`). Then the goroutine body on the template's views (`cellStepNd`: decode the parameters through
 the `ApplyParameters` views, read the states and the input series through the state/input views, run the kernel, write
@@ -399,7 +405,7 @@ theorem wrapperNd_refines (km : KModel α) {h : Heap α} {parameters inputs stat
     (hso : states.sid ≠ outputs.sid)
     (hnP : nP ≤ rows) (hiN : i < N) (hiM : i < M) (hT : T ≤ T')
     {rd : RunDims} (hrd : runDims inputs states outputs = .ok rd)
-    (hK : ∀ p ins st r, km.run p ins st = .ok r →
+    (hK : ∀ p ins st r, ins.length = nI → (∀ s ∈ ins, s.length = T) → st.length = nS → km.run p ins st = .ok r →
       r.outputs.length ≤ nO ∧ (∀ ser ∈ r.outputs, ser.length ≤ T) ∧ r.states.length ≤ nS) :
     (∀ e, cellStep km (List.replicate nP none) ((List.range nP).map fun j => (j, 1)) (mat pst pb rows nSets)
           (cube ist ib nIn nI T) i (rowAt sst (sb + i * nS) nS) (mat ost (ob + i * (nO * T')) nO T') = .error e →
@@ -437,7 +443,7 @@ theorem runNd_refines (km : KModel α) {h : Heap α} {parameters inputs states o
     (hso : states.sid ≠ outputs.sid) (hps : parameters.sid ≠ states.sid) (hpo : parameters.sid ≠ outputs.sid)
     (his : inputs.sid ≠ states.sid) (hio : inputs.sid ≠ outputs.sid)
     (hnP : nP ≤ rows) (hNM : N ≤ M) (hT : T ≤ T')
-    (hK : ∀ p ins st r, km.run p ins st = .ok r →
+    (hK : ∀ p ins st r, ins.length = nI → (∀ s ∈ ins, s.length = T) → st.length = nS → km.run p ins st = .ok r →
       r.outputs.length ≤ nO ∧ (∀ ser ∈ r.outputs, ser.length ≤ T) ∧ r.states.length ≤ nS)
     {ss : List (List α)} {os : List (List (List α))}
     (hrun : runCells km (List.replicate nP none) ((List.range nP).map fun j => (j, 1)) (mat pst pb rows nSets)
@@ -632,7 +638,7 @@ example (z : α) :=
     rfl rfl rfl rfl rfl rfl rfl rfl (by decide) (by decide) (by decide) (by decide) (by decide)
     (runDims_roots rfl rfl rfl)
     (by
-      intro p ins st r hr
+      intro p ins st r _ _ _ hr
       simp only [toyKm, Except.ok.injEq] at hr
       subst hr
       refine ⟨by simp, fun ser hs => ?_, by simp⟩
@@ -667,13 +673,78 @@ example (z : α) :=
     rfl rfl rfl rfl rfl rfl rfl rfl (by decide) (by decide) (by decide) (by decide) (by decide) (by decide) (by decide)
     (by decide)
     (by
-      intro p ins st r hr
+      intro p ins st r _ _ _ hr
       simp only [toyKm, Except.ok.injEq] at hr
       subst hr
       refine ⟨by simp, fun ser hs => ?_, by simp⟩
       simp only [List.mem_singleton] at hs
       subst hs
       simp) (toy_runCells z)
+
+
+/-! #### the same on REGISTRY kernels (`OW.Kernels.Muskingum.model`, `OW.Kernels.Coeff.model`), not a toy -/
+
+/-- `Muskingum.model` meets the kernel-fit hypothesis `hK` for every series length `T`: on 2 input series of `T` values and
+3 states it returns 1 series of `T` values and 3 states. -/
+theorem muskingum_fits (T : Nat) : ∀ (p : List α) ins st r, ins.length = 2 → (∀ s ∈ ins, s.length = T) → st.length = 3 →
+    (Kernels.Muskingum.model (α := α)).run p ins st = .ok r →
+    r.outputs.length ≤ 1 ∧ (∀ ser ∈ r.outputs, ser.length ≤ T) ∧ r.states.length ≤ 3 := by
+  intro p ins st r _ hT _ hr
+  simp only [Kernels.Muskingum.model] at hr
+  split at hr
+  · injection hr with hr
+    subst hr
+    refine ⟨by simp, fun ser hs => ?_, by simp⟩
+    simp only [List.mem_singleton] at hs
+    subst hs
+    simp only [Kernels.Muskingum.run, scan_length, List.length_zip]
+    have := hT _ (List.mem_cons_self)
+    omega
+  · cases hr
+
+/-- `RunoffCoefficient` (`Coeff.model`) meets `hK`: 1 input series of `T` values, no states → 1 series of `T` values -/
+theorem coeff_fits (T : Nat) : ∀ (p : List α) ins st r, ins.length = 1 → (∀ s ∈ ins, s.length = T) → st.length = 0 →
+    (Kernels.Coeff.model (α := α)).run p ins st = .ok r →
+    r.outputs.length ≤ 1 ∧ (∀ ser ∈ r.outputs, ser.length ≤ T) ∧ r.states.length ≤ 0 := by
+  intro p ins st r _ hT _ hr
+  simp only [Kernels.Coeff.model] at hr
+  split at hr
+  · injection hr with hr
+    subst hr
+    refine ⟨by simp, fun ser hs => ?_, by simp⟩
+    simp only [List.mem_singleton] at hs
+    subst hs
+    simp only [Kernels.Coeff.run, List.length_map]
+    exact Nat.le_of_eq (hT _ (List.mem_cons_self))
+  · cases hr
+
+/-- why `hK` must be restricted to the shapes the wrapper passes: quantified over ALL inputs (the earlier form of the
+hypothesis) it is FALSE for `Muskingum.model` at `T = 3` — on 5-step inputs the kernel returns a 5-step series. -/
+theorem unrestricted_fit_is_unsatisfiable (z : α) :
+    ¬ (∀ (p : List α) ins st r, (Kernels.Muskingum.model (α := α)).run p ins st = .ok r →
+      r.outputs.length ≤ 1 ∧ (∀ ser ∈ r.outputs, ser.length ≤ 3) ∧ r.states.length ≤ 3) := by
+  intro hall
+  have h := (hall [z, z, z] [List.replicate 5 z, List.replicate 5 z] [z, z, z] _ rfl).2.1 _ (List.mem_cons_self)
+  simp [Kernels.Muskingum.run, scan_length] at h
+
+/-- parameters 3×2 (k, x, deltaT for 2 sets), inputs 2×2×3 (2 blocks of inflow + lateral, 3 steps), states 3×3,
+outputs 4×1×5 (oversized), all filled with `z` -/
+def heapM (z : α) : Heap α := [List.replicate 6 z, List.replicate 12 z, List.replicate 9 z, List.replicate 20 z]
+
+/-- `wrapperNd_refines` instantiated on the registry kernel `Muskingum.model` (cell 2 of 3) -/
+example (z : α) :=
+  wrapperNd_refines (Kernels.Muskingum.model (α := α)) (h := heapM z) (rows := 3) (nSets := 2) (nIn := 2) (nI := 2) (T := 3)
+    (N := 3) (nS := 3) (M := 4) (nO := 1) (T' := 5) (nP := 3) (i := 2) (pb := 0) (ib := 0) (sb := 0) (ob := 0)
+    (parameters := rootArr 0 [((3 : Nat) : Int), ((2 : Nat) : Int)] 6)
+    (inputs := rootArr 1 [((2 : Nat) : Int), ((2 : Nat) : Int), ((3 : Nat) : Int)] 12)
+    (states := rootArr 2 [((3 : Nat) : Int), ((3 : Nat) : Int)] 9)
+    (outputs := rootArr 3 [((4 : Nat) : Int), ((1 : Nat) : Int), ((5 : Nat) : Int)] 20)
+    (rootOn_rootArr (st := List.replicate 6 z) (by simp) (by simp [Pos]) rfl (by simp [product])).2
+    (rootOn_rootArr (st := List.replicate 12 z) (by simp) (by simp [Pos]) rfl (by simp [product])).2
+    (rootOn_rootArr (st := List.replicate 9 z) (by simp) (by simp [Pos]) rfl (by simp [product])).2
+    (rootOn_rootArr (st := List.replicate 20 z) (by simp) (by simp [Pos]) rfl (by simp [product])).2
+    rfl rfl rfl rfl rfl rfl rfl rfl (by decide) (by decide) (by decide) (by decide) (by decide)
+    (runDims_roots rfl rfl rfl) (muskingum_fits 3)
 
 end ExRefine
 
